@@ -142,19 +142,23 @@ func (c *cmd) calls(f func(*cmd)) {
 }
 
 type fn struct {
-	idx     int
-	name    string // short printable name
-	key     string // types.Func full name, or parent key + "$k" for literals
-	pos     token.Position
-	body    *ast.BlockStmt
-	pkg     *pkgInfo
-	cmd     *cmd
-	pre     []int // lock ids held on entry
-	needs   []int // Need ids prepended
-	exempt  bool  // accesses to guarded fields are not emitted (constructors: the object is not shared yet)
-	goEntry bool
-	rel     bool
-	inline  bool // function literal invoked synchronously by its parent (emitted as Call at the literal)
+	idx      int
+	name     string // short printable name
+	key      string // types.Func full name, or parent key + "$k" for literals
+	pos      token.Position
+	body     *ast.BlockStmt
+	pkg      *pkgInfo
+	cmd      *cmd
+	pre      []int // lock ids held on entry
+	needs    []int // Need ids prepended
+	exempt   bool  // accesses to guarded fields are not emitted (constructors: the object is not shared yet)
+	goEntry  bool
+	rel      bool
+	inline   bool     // function literal invoked synchronously by its parent (emitted as Call at the literal)
+	asValue  bool     // referenced other than as the callee of a direct call (method value, callback): its callers are unknown
+	declared bool     // its entry requirement comes from the guards file
+	inferred []string // locks the translator found its callers must hold (checked at every call site by the Coq checker)
+	bodyCmd  *cmd
 }
 
 type pkgInfo struct {
@@ -166,24 +170,24 @@ type pkgInfo struct {
 }
 
 type translator struct {
-	fset         *token.FileSet
-	pkgs         map[string]*pkgInfo
-	std          types.Importer
-	fieldKey     map[*types.Var]string
-	locks        []string       // index -> key
-	lockIdx      map[string]int // key -> index
-	gfields      []string       // guarded field keys
-	gfieldIx     map[string]int
-	gguard       map[string]string // field key -> lock key
-	needs        map[string][]string
-	exempt       map[string]bool
-	syncLit      map[string]bool // function literal keys invoked synchronously
-	fns          []*fn
-	fnByKey      map[string]*fn
-	litOf        map[*ast.FuncLit]*fn
-	errs         []string
-	deferredLits []*fn
-	deferredFns  []deferredCall
+	fset          *token.FileSet
+	pkgs          map[string]*pkgInfo
+	std           types.Importer
+	fieldKey      map[*types.Var]string
+	locks         []string       // index -> key
+	lockIdx       map[string]int // key -> index
+	gfields       []string       // guarded field keys
+	gfieldIx      map[string]int
+	gguard        map[string]string // field key -> lock key
+	needs         map[string][]string
+	exempt        map[string]bool
+	syncLit       map[string]bool // function literal keys invoked synchronously
+	fns           []*fn
+	fnByKey       map[string]*fn
+	litOf         map[*ast.FuncLit]*fn
+	errs          []string
+	deferredLits  []*fn
+	deferredFns   []deferredCall
 	deferredAfter []deferredCall // desugared deferred calls followed by a deferred unlock in the same body
 }
 
@@ -565,7 +569,11 @@ func (c *fctx) walk(n ast.Node) {
 			if j, ok := c.guardedField(e); ok && !c.f.exempt {
 				c.emit(&cmd{op: "Acc", n: fieldRead(j), pos: e.Pos()})
 			}
+			c.noteValueUse(e.Sel)
 			return false
+		case *ast.Ident:
+			c.noteValueUse(e)
+			return true
 		case *ast.KeyValueExpr:
 			// composite literal field keys are not accesses of a shared object
 			c.walk(e.Value)
@@ -573,6 +581,21 @@ func (c *fctx) walk(n ast.Node) {
 		}
 		return true
 	})
+}
+
+// noteValueUse: a function of the module named outside call position (method value, function passed as a callback):
+// whoever ends up calling it is not visible here
+func (c *fctx) noteValueUse(id *ast.Ident) {
+	fo, ok := c.p.info.Uses[id].(*types.Func)
+	if !ok {
+		return
+	}
+	if o := fo.Origin(); o != nil {
+		fo = o
+	}
+	if f, ok := c.t.fnByKey[fo.FullName()]; ok {
+		f.asValue = true
+	}
 }
 
 // walkLHS: the expression is assigned to (or its map/slice element is)
@@ -987,6 +1010,7 @@ func main() {
 				switch mode {
 				case "W":
 					f.pre = append([]int{idAny(i), idW(i)}, f.pre...)
+					f.needs = append(f.needs, idW(i)) // the caller must hold it for writing
 				case "R":
 					f.pre = append([]int{idAny(i), idR(i)}, f.pre...)
 				default:
@@ -994,6 +1018,7 @@ func main() {
 					os.Exit(2)
 				}
 				f.needs = append(f.needs, idAny(i))
+				f.declared = true
 			}
 		}
 		if !found {
@@ -1002,12 +1027,15 @@ func main() {
 	}
 	for _, f := range t.fns {
 		c := &fctx{t: t, p: f.pkg, f: f}
-		body := c.bodyStmts(f.body.List)
+		f.bodyCmd = c.bodyStmts(f.body.List)
+	}
+	t.inferNeeds()
+	for _, f := range t.fns {
 		var pre []*cmd
 		for _, n := range f.needs {
 			pre = append(pre, &cmd{op: "Need", n: n})
 		}
-		f.cmd = seq(append(pre, body)...)
+		f.cmd = seq(append(pre, f.bodyCmd)...)
 	}
 	// guarded fields must exist
 	for _, k := range t.gfields {
@@ -1217,8 +1245,14 @@ func (t *translator) write(out, table string, fuel int) {
 		for _, f := range rel {
 			fjs = append(fjs, fj{f.idx, f.name, fmt.Sprintf("%s:%d", f.pos.Filename, f.pos.Line), f.pre, f.goEntry, f.exempt})
 		}
+		inferred := map[string][]string{}
+		for _, f := range t.fns {
+			if len(f.inferred) > 0 {
+				inferred[f.name] = f.inferred
+			}
+		}
 		js, _ := json.MarshalIndent(map[string]any{
-			"locks": t.locks, "fields": t.gfields, "guard": t.gguard, "functions": fjs,
+			"locks": t.locks, "fields": t.gfields, "guard": t.gguard, "functions": fjs, "inferred_needs": inferred,
 			"functions_total": len(t.fns), "functions_lock_relevant": len(rel), "orders": ords,
 		}, "", " ")
 		_ = os.WriteFile(table, js, 0o644)
